@@ -8,12 +8,39 @@ import (
 	"math/big"
 	"runtime"
 	"strings"
+	"sync"
 	"time"
+	_ "time/tzdata" // the zone database travels with the binary: real zones do not depend on the machine
 
 	"github.com/amzn/ion-go/ion"
 
 	"verifh/model"
 )
+
+var (
+	realZonesOnce sync.Once
+	realZones     []*time.Location
+)
+
+// inRealZone returns dt carried by a Location of the zone database (daylight saving rules and all)
+// when one of a few such zones has exactly dt's offset at that instant, as the time.Time values of a
+// program that works in local time are. The instant and the offset stay what they were.
+func inRealZone(dt time.Time) time.Time {
+	realZonesOnce.Do(func() {
+		for _, n := range []string{"America/New_York", "Europe/Berlin", "Australia/Lord_Howe", "Asia/Kolkata", "America/St_Johns", "Pacific/Chatham", "America/Sao_Paulo"} {
+			if l, err := time.LoadLocation(n); err == nil {
+				realZones = append(realZones, l)
+			}
+		}
+	})
+	_, want := dt.Zone()
+	for _, l := range realZones {
+		if in := dt.In(l); func() int { _, o := in.Zone(); return o }() == want {
+			return in
+		}
+	}
+	return dt
+}
 
 // Obs is the result of a full traversal.
 type Obs struct {
@@ -438,6 +465,9 @@ func ToTS(t model.TS, variant int) ion.Timestamp {
 		d = 1
 	}
 	dt := time.Date(t.Y, time.Month(m), d, t.H, t.Mi, t.S, t.Nanos, loc)
+	if kind == ion.TimezoneLocal && variant%2 == 1 {
+		dt = inRealZone(dt)
+	}
 	var prec ion.TimestampPrecision
 	switch t.Prec {
 	case model.PYear:
